@@ -45,6 +45,54 @@ EVAL_BUDGET = 400000
 
 
 # ---------------------------------------------------------------- translator
+# Which parser function calls which, how often, and how many loops it has (T12.cost is proved for a model with exactly this
+# call structure: e.g. the `(`-branch of _factor parses its body once, every function has at most one loop).
+CENSUS_CALLEES = {"prog", "_expr", "_factor", "_read_fn_args", "_apply_adverbs", "read_cond", "read_expr_array", "kg_read", "kg_read_array",
+                  "read_list", "skip", "read_sys_comment", "peek_adverb", "cexpect", "cexpect2", "read_char", "read_num", "read_string",
+                  "read_sym", "read_op", "skip_space", "read_shifted_comment", "get_fn_arity", "list_to_dict"}
+EXPECTED_CENSUS = {
+    "prog": {"<loops>": 1, "_expr": 1, "kg_read": 1},
+    "_expr": {"<loops>": 1, "_apply_adverbs": 1, "_expr": 1, "_factor": 1, "_read_fn_args": 2, "cexpect": 1, "get_fn_arity": 1, "kg_read": 2,
+              "peek_adverb": 1, "prog": 1, "skip": 2},
+    "_factor": {"_apply_adverbs": 3, "_expr": 2, "_factor": 1, "_read_fn_args": 2, "cexpect": 2, "get_fn_arity": 1, "kg_read_array": 1,
+                "peek_adverb": 3, "prog": 1, "read_cond": 1, "read_expr_array": 1, "read_sys_comment": 1, "skip": 2},
+    "_read_fn_args": {"<loops>": 1, "_expr": 1, "cexpect": 1, "kg_read": 1},
+    "_apply_adverbs": {"<loops>": 1, "_expr": 1, "peek_adverb": 2},
+    "read_cond": {"_expr": 3, "cexpect": 3, "read_cond": 1, "skip": 2},
+    "read_expr_array": {"<loops>": 1, "_expr": 1, "skip": 3},
+    "read_list": {"<loops>": 1, "kg_read": 1, "skip": 2},
+    "kg_read": {"kg_read": 1, "list_to_dict": 1, "read_char": 1, "read_list": 2, "read_num": 1, "read_op": 1, "read_string": 1,
+                "read_sym": 2, "skip": 1},
+    "kg_read_array": {"kg_read": 1},
+    "skip": {"read_shifted_comment": 1, "skip": 1, "skip_space": 1},
+    "skip_space": {"<loops>": 1}, "read_shifted_comment": {"<loops>": 1}, "read_num": {"<loops>": 1}, "read_char": {"cexpect2": 1},
+    "read_sym": {"<loops>": 1}, "read_op": {}, "read_string": {"<loops>": 1}, "read_sys_comment": {"<loops>": 1}, "peek_adverb": {},
+}
+
+
+def parser_census():
+    out = {}
+    im = astlib.module("klongpy/interpreter.py")
+    pm = astlib.module("klongpy/parser.py")
+    cls = astlib.find_class(im, "KlongInterpreter")
+    fns = [(n, astlib.find_func(cls, n)) for n in ("prog", "_expr", "_factor", "_read_fn_args", "_apply_adverbs")]
+    fns += [(n, astlib.find_func(pm, n)) for n in ("read_cond", "read_expr_array", "read_list", "kg_read", "kg_read_array", "skip", "skip_space",
+                                                   "read_shifted_comment", "read_num", "read_char", "read_sym", "read_op", "read_string",
+                                                   "read_sys_comment", "peek_adverb")]
+    for name, fn in fns:
+        d = {}
+        for n in ast.walk(fn):
+            if isinstance(n, ast.Call):
+                f = n.func
+                nm = f.id if isinstance(f, ast.Name) else (f.attr if isinstance(f, ast.Attribute) else None)
+                if nm in CENSUS_CALLEES:
+                    d[nm] = d.get(nm, 0) + 1
+            if isinstance(n, (ast.While, ast.For, ast.ListComp, ast.GeneratorExp, ast.DictComp, ast.SetComp)):
+                d["<loops>"] = d.get("<loops>", 0) + 1
+        out[name] = d
+    return out
+
+
 def _cp(s):
     return "[" + "; ".join(str(ord(c)) for c in s) + "]"
 
@@ -190,6 +238,16 @@ def generate():
                     and ast.unparse(e.body[0]).replace(" ", "") == "x.update(_e(f.args,level=1))":
                 return True
         raise ShapeError("get_fn_arity._e: else-branch of the f.args test not recognised")
+    def census_ok():
+        got = parser_census()
+        if got != EXPECTED_CENSUS:
+            diff = {k: (EXPECTED_CENSUS.get(k), got.get(k)) for k in set(got) | set(EXPECTED_CENSUS) if got.get(k) != EXPECTED_CENSUS.get(k)}
+            raise ShapeError("call sites / loops differ from the model: %r" % diff)
+        return True
+    cs, why_c = astlib.try_flag(census_ok)
+    out.append("Definition parser_call_sites_as_modelled : bool := %s.%s" % (
+        astlib.coq_bool(bool(cs)), "" if why_c is None else "  (* %s *)" % why_c.replace("*)", "* )")))
+
     ao, why = astlib.try_flag(arity_operand)
     out.append("Definition arity_scans_monad_operand : bool := %s.%s" % (
         astlib.coq_bool(bool(ao)), "" if why is None else "  (* shape not recognised: %s *)" % why))
